@@ -533,6 +533,26 @@ def work(job):
                 except Exception as e:  # noqa
                     if not isinstance(e, Timeout):
                         fail("file-on-disk", f"{type(e).__name__}: {e}", w.text(), None, set(w.tags))
+            # a file that is not valid UTF-8 (Latin-1 bytes in identifiers and comments) is read as Latin-1: same result as the text
+            for w in progs[1:8:2]:
+                if not w.expected:
+                    continue
+                nm = w.expected[0]["name"]
+                t2 = w.text().replace(nm, "gr\u00f6\u00dfe_" + nm) + COMMENT[lang][0] + " caf\u00e9\n"
+                try:
+                    res["evaluations"] += 1
+                    direct = [mtuple(m) for m in analyse(lang, t2)]
+                    ms = analyse_file(lang, t2.encode("latin-1"))
+                    got = None if ms is None else [mtuple(m) for m in ms]
+                    if got != direct:
+                        fail("file-on-disk", f"Latin-1 file: {got} but the text itself gives {direct}", t2, {"encoding": "latin-1"}, set(w.tags))
+                    ms = analyse_file(lang, t2.encode("utf-8"))
+                    got = None if ms is None else [mtuple(m) for m in ms]
+                    if got != direct:
+                        fail("file-on-disk", f"UTF-8 file: {got} but the text itself gives {direct}", t2, {"encoding": "utf-8"}, set(w.tags))
+                except Exception as e:  # noqa
+                    if not isinstance(e, Timeout):
+                        fail("file-on-disk", f"{type(e).__name__}: {e}", t2, None, set(w.tags))
             # characters that str.splitlines() treats as line ends but that are not line ends here: a form-feed-only line on top
             # shifts every span by exactly one line; a comment holding U+2028 / U+000B on the first line shifts nothing
             for w in progs[::3]:
@@ -653,7 +673,8 @@ def replay(path):
     if prop == "C01" and kind == "file-on-disk":
         direct = [mtuple(m) for m in analyse(lang, text)]
         fs = []
-        for ends, data in (("LF", text.encode()), ("CRLF", text.replace("\n", "\r\n").encode())):
+        enc = (rp.get("extra") or {}).get("encoding") or "utf-8"
+        for ends, data in (("LF", text.encode(enc)), ("CRLF", text.replace("\n", "\r\n").encode(enc))):
             ms = analyse_file(lang, data)
             got = None if ms is None else [mtuple(m) for m in ms]
             if got != direct:
